@@ -34,7 +34,7 @@ def mapGet {α : Type} (k : Nat) : List (Nat × α) → Option α
 
 def mapRemove {α : Type} (k : Nat) : List (Nat × α) → List (Nat × α)
   | [] => []
-  | (k', v) :: r => if k' = k then r else (k', v) :: mapRemove k r
+  | (k', v) :: r => if k' = k then mapRemove k r else (k', v) :: mapRemove k r
 
 def mapInsert {α : Type} (k : Nat) (v : α) (m : List (Nat × α)) : List (Nat × α) :=
   (k, v) :: mapRemove k m
@@ -51,5 +51,63 @@ def parseSetChunkSize (data : Bytes) : Option Nat :=
     let v := Bytes.rd32 a b c d
     if v > maxChunkSize then none else some v
   | _ => none
+
+end Rml.Chunk
+
+namespace Rml.Chunk
+
+theorem mapGet_mapRemove_self {α : Type} (k : Nat) (m : List (Nat × α)) : mapGet k (mapRemove k m) = none := by
+  induction m with
+  | nil => rfl
+  | cons p r ih =>
+    obtain ⟨k', v⟩ := p
+    simp only [mapRemove]
+    split
+    · exact ih
+    · rename_i h; simp only [mapGet, h, if_false]; exact ih
+
+theorem mapGet_mapRemove_ne {α : Type} (k j : Nat) (h : j ≠ k) (m : List (Nat × α)) :
+    mapGet j (mapRemove k m) = mapGet j m := by
+  induction m with
+  | nil => rfl
+  | cons p r ih =>
+    obtain ⟨k', v⟩ := p
+    simp only [mapRemove]
+    split
+    · rename_i hk; subst hk; simp only [mapGet]; rw [if_neg (fun e => h e.symm)]; exact ih
+    · simp only [mapGet]; split
+      · rfl
+      · exact ih
+
+theorem mapGet_mapInsert_self {α : Type} (k : Nat) (v : α) (m : List (Nat × α)) : mapGet k (mapInsert k v m) = some v := by
+  simp [mapInsert, mapGet]
+
+theorem mapGet_mapInsert_ne {α : Type} (k j : Nat) (h : j ≠ k) (v : α) (m : List (Nat × α)) :
+    mapGet j (mapInsert k v m) = mapGet j m := by
+  simp only [mapInsert, mapGet]
+  rw [if_neg (fun e => h e.symm)]
+  exact mapGet_mapRemove_ne k j h m
+
+/-- every key of the map is below `n` -/
+def KeysBelow {α : Type} (n : Nat) (m : List (Nat × α)) : Prop := ∀ k, k ≥ n → mapGet k m = none
+
+theorem KeysBelow.insert {α : Type} {n : Nat} {m : List (Nat × α)} (h : KeysBelow n m) (v : α) :
+    KeysBelow (n + 1) (mapInsert n v m) := by
+  intro k hk
+  rw [mapGet_mapInsert_ne n k (by omega)]
+  exact h k (by omega)
+
+theorem KeysBelow.remove {α : Type} {n : Nat} {m : List (Nat × α)} (h : KeysBelow n m) (j : Nat) :
+    KeysBelow n (mapRemove j m) := by
+  intro k hk
+  by_cases e : k = j
+  · subst e; exact mapGet_mapRemove_self k m
+  · rw [mapGet_mapRemove_ne j k e]; exact h k hk
+
+theorem KeysBelow.update {α : Type} {n : Nat} {m : List (Nat × α)} (h : KeysBelow n m) (j : Nat) (hj : j < n) (v : α) :
+    KeysBelow n (mapInsert j v m) := by
+  intro k hk
+  rw [mapGet_mapInsert_ne j k (by omega)]
+  exact h k hk
 
 end Rml.Chunk
